@@ -145,6 +145,8 @@ def _job(args):
     for (variant, sig, nens, nproc, mode, level, seed, schedule) in items:
         rng = np.random.RandomState(sig)
         x = np.sin(np.arange(96) * (.15 + .1 * rng.rand())) + .3 * rng.randn(96)
+        if seed % 4 == 3:
+            x = np.round(x * 50).astype(np.int16)      # quantised data stored as integers: the noise is real-valued all the same
         out.append(one_run(emd, variant, x, nens, nproc, mode, level, seed, schedule, tdir))
         if variant == 'complete_ensemble_sift' and schedule is None and level > 0 and nens >= 2:
             out.append(ceemd_layers(emd, x, nens, nproc, mode, seed, tdir))
